@@ -223,6 +223,7 @@ class Interp:
             return [st]
         if isinstance(s, (ast.Break, ast.Continue)):
             st.events.append((type(s).__name__.lower(), st.loops))
+            st.ended = type(s).__name__.lower()      # ends the loop body; resolved by exec_loop
             return [st]
         if isinstance(s, ast.FunctionDef):
             st.env[s.name] = ("closure", id(s), s.name)
@@ -290,6 +291,9 @@ class Interp:
                     bs.append(b2)
             res = self.exec_block(s.body, bs, glob, owner, depth)
             for r in res:
+                broke = r.ended == "break"
+                if r.ended in ("break", "continue"):
+                    r.ended = None
                 if r.ended:
                     out.append(r)
                     continue
@@ -297,7 +301,7 @@ class Interp:
                 r.events.append(("loop-exit", lid, r.loops))
                 for v in assigned:
                     r.env[v] = ("loopout", lid[0], v, r.env.get(v))
-                if s.orelse:
+                if s.orelse and not broke:
                     out.extend(self.exec_block(s.orelse, [r], glob, owner, depth))
                 else:
                     out.append(r)
@@ -385,8 +389,14 @@ class Interp:
             res = [(st, [])]
             for x in e.elts:
                 res = [(s3, items + [v]) for s2, items in res for s3, v in self.ev(x, s2, glob, owner, depth)]
-            tag = "tuple" if isinstance(e, ast.Tuple) else "list"
-            return [(s2, (tag, tuple(items))) for s2, items in res]
+            if isinstance(e, ast.Tuple):
+                return [(s2, ("tuple", tuple(items))) for s2, items in res]
+            # a list display creates a fresh mutable object: give it an identity
+            out = []
+            for s2, items in res:
+                self.seq += 1
+                out.append((s2, ("list", tuple(items), self.seq)))
+            return out
         if isinstance(e, ast.Dict):
             res = [(st, [])]
             for kx, vx in zip(e.keys, e.values):
@@ -673,7 +683,9 @@ def show(t, depth=0):
         return f"{t[2]}({a})"
     if k == "item":
         return f"{show(t[1])}[{show(t[2])}]"
-    if k in ("tuple", "list"):
+    if k == "list":
+        return "[" + ", ".join(show(x) for x in t[1]) + "]#" + str(t[2] if len(t) > 2 else "")
+    if k == "tuple":
         return "(" + ", ".join(show(x) for x in t[1]) + ")"
     if k == "iter":
         return f"elem({show(t[1])})"
